@@ -480,7 +480,7 @@ pub const CONTAINERS: [&str; 17] = [
     "single-line IF",
 ];
 
-pub const HANDLERS: [&str; 7] = [
+pub const HANDLERS: [&str; 9] = [
     "no handler",
     "ON ERROR GOTO + RESUME (operand repaired)",
     "ON ERROR GOTO + RESUME NEXT",
@@ -488,6 +488,8 @@ pub const HANDLERS: [&str; 7] = [
     "ON ERROR RESUME NEXT",
     "handler enabled, then ON ERROR GOTO 0",
     "ON ERROR GOTO, the handler itself fails before RESUME NEXT",
+    "ON ERROR GOTO: RESUME NEXT the first time, repair + RESUME the second time",
+    "ON ERROR GOTO: repair + RESUME the first time, RESUME NEXT the second time (the loop breaks the operand again)",
 ];
 
 fn failing(b: &mut B, fault: usize) -> Stmt {
@@ -507,7 +509,11 @@ fn failing(b: &mut B, fault: usize) -> Stmt {
 /// The program for one (fault, container, position in the container, handler mode, handler action).
 pub fn fault_program(fault: usize, container: usize, position: usize, handler: usize, change_var: bool) -> Option<Prog> {
     // RESUME (retry) needs a repairable operand
-    if handler == 1 && matches!(fault, 4 | 7) {
+    if matches!(handler, 1 | 7 | 8) && matches!(fault, 4 | 7) {
+        return None;
+    }
+    // the alternating handlers need the statement to fail twice: loop bodies only
+    if matches!(handler, 7 | 8) && !matches!(container, 3 | 4 | 5 | 13 | 14) {
         return None;
     }
     // (fault 8 is repaired like fault 3: M% = 1)
@@ -562,7 +568,7 @@ pub fn fault_program(fault: usize, container: usize, position: usize, handler: u
         main.push(b.s(K::Label("Start".into())));
     }
     match handler {
-        1 | 2 | 3 | 6 => main.push(b.s(K::OnErrorGoto("H".into()))),
+        1 | 2 | 3 | 6 | 7 | 8 => main.push(b.s(K::OnErrorGoto("H".into()))),
         4 => main.push(b.s(K::OnErrorResumeNext)),
         5 => {
             main.push(b.s(K::OnErrorGoto("H".into())));
@@ -574,11 +580,17 @@ pub fn fault_program(fault: usize, container: usize, position: usize, handler: u
     let f = failing(&mut b, fault);
     let ta = b.print(vec![st("a"), var("W%")]);
     let tb = b.print(vec![st("b"), var("W%"), builtin("ERR", vec![])]);
-    let inner: Vec<Stmt> = match position {
+    let mut inner: Vec<Stmt> = match position {
         0 => vec![f, ta, tb],
         1 => vec![ta, f, tb],
         _ => vec![ta, tb, f],
     };
+    if handler == 8 {
+        // every round of the loop breaks the operands again
+        let mut again = vec![b.assign(var("Z%"), num(0)), b.assign(var("K%"), num(1)), b.assign(var("IX%"), num(5)), b.assign(var("M%"), num(-1))];
+        again.extend(inner);
+        inner = again;
+    }
     let mut subs: Vec<SubDef> = vec![];
     match container {
         0 => main.extend(inner),
@@ -674,6 +686,24 @@ pub fn fault_program(fault: usize, container: usize, position: usize, handler: u
         main.push(b.assign(var("HQ%"), bin(BinOp::Div, num(1), var("HZ%"))));
     }
     match handler {
+        7 | 8 => {
+            // HQ% counts the failures
+            let repair = |b: &mut B| vec![b.assign(var("Z%"), num(2)), b.assign(var("K%"), num(0)), b.assign(var("IX%"), num(1)), b.assign(var("M%"), num(1))];
+            let mut first = vec![b.assign(var("HQ%"), num(1))];
+            if handler == 7 {
+                first.push(b.s(K::ResumeNext));
+            } else {
+                first.extend(repair(&mut b));
+                first.push(b.s(K::Resume));
+            }
+            main.push(b.s(K::If { arms: vec![(bin(BinOp::Eq, var("HQ%"), num(0)), first)], els: None, single_line: false }));
+            if handler == 7 {
+                main.extend(repair(&mut b));
+                main.push(b.s(K::Resume));
+            } else {
+                main.push(b.s(K::ResumeNext));
+            }
+        }
         1 => {
             // repair the operands so that the statement succeeds when re-executed
             main.push(b.assign(var("Z%"), num(2)));
@@ -712,7 +742,7 @@ pub fn fault_cases() -> Vec<(usize, usize, usize, usize, bool)> {
             for position in 0..3 {
                 for handler in 0..HANDLERS.len() {
                     for change in [false, true] {
-                        if change && matches!(handler, 0 | 4 | 5 | 6) {
+                        if change && matches!(handler, 0 | 4 | 5 | 6 | 7 | 8) {
                             continue;
                         }
                         out.push((fault, container, position, handler, change));
